@@ -26,7 +26,15 @@ func init() {
 		if len(idx) == 0 {
 			return false, "no templates recorded (race-pass findings are re-checked by running ./check C18)"
 		}
+		verifhook.Snapshot = true
+		verifhook.Sched = func(int, int, unsafe.Pointer) {}
+		for _, t := range ts {
+			t.run()
+		}
+		verifhook.Sched = nil
 		for i, t := range ts {
+			verifhook.RestoreAll()
+			restoreInputs()
 			seqResults[i] = t.run()
 		}
 		var got string
@@ -40,6 +48,7 @@ var (
 	inDoc      = []byte(`{"a":[1.5,{"b":"x` + "\\" + `n"}],"` + "\\" + `tk":[true,null,-2.5e3]}`)
 	inDoc2     = []byte(` [[1.25],[2.5,[3.75e1]],{"k":[4.5]}] `)
 	inDoc3     = []byte(`[{"a":{"b":{}}},[[]],"` + "\\" + `ud83d` + "\\" + `ude00"]`)
+	inDoc4     = []byte(`{"alpha":1,"beta":2,"gamma":3,"x` + "\\" + `ty":4}`)
 	inBad      = []byte(`[[1.5],{"a":[2.5,}]`)
 	inBadFast  = []byte(`{"a":[1,2`)
 	inFloatF   = []byte(`1.5`)
@@ -58,13 +67,52 @@ var (
 	inDeep     = []byte(strings.Repeat("[", 30) + "1.5" + strings.Repeat("]", 30))
 )
 
+// sharedInputs lists every shared input with a pristine copy: inputs are restored before each
+// explored execution and compared afterwards (a write to a shared read-only input is a data race
+// with every concurrent reader of it).
+var sharedInputs = func() []struct {
+	name string
+	buf  []byte
+	orig []byte
+} {
+	type in = struct {
+		name string
+		buf  []byte
+		orig []byte
+	}
+	mk := func(n string, b []byte) in { return in{n, b, append([]byte(nil), b...)} }
+	return []in{mk("inDoc", inDoc), mk("inDoc2", inDoc2), mk("inDoc3", inDoc3), mk("inDoc4", inDoc4), mk("inBad", inBad), mk("inBadFast", inBadFast),
+		mk("inFloatF", inFloatF), mk("inFloatEL", inFloatEL), mk("inFloatS1", inFloatS1), mk("inFloatS2", inFloatS2), mk("inFloatOv", inFloatOv), mk("inInt", inInt), mk("inUint", inUint),
+		mk("inStrEsc", inStrEsc), mk("inStrPair1", inStrPair1), mk("inStrPair2", inStrPair2), mk("inLit", inLit), mk("inNull", inNull), mk("inUTF8", inUTF8), mk("inDeep", inDeep)}
+}()
+
+func restoreInputs() {
+	for _, in := range sharedInputs {
+		copy(in.buf, in.orig)
+	}
+}
+
+func modifiedInput() string {
+	for _, in := range sharedInputs {
+		if !bytes.Equal(in.buf, in.orig) {
+			return fmt.Sprintf("%s: %q became %q", in.name, in.orig, in.buf)
+		}
+	}
+	return ""
+}
+
 type concTemplate struct {
 	name string
 	run  func() string
 }
 
+// tfmt formats template results. The free-running race pass replaces it by a function without
+// any synchronisation: fmt uses a global sync.Pool, whose hand-offs are happens-before edges
+// between the goroutines and would blind the race detector.
+var tfmt = fmt.Sprintf
+
 func concTemplates() []concTemplate {
-	f := fmt.Sprintf
+	f := func(format string, a ...interface{}) string { return tfmt(format, a...) }
 	declA := rjson.ArrayValueHandlerFunc(func([]byte) (int, error) { return 0, nil })
 	return []concTemplate{
 		{"Valid(doc,nil)", func() string { return f("%v", rjson.Valid(inDoc, nil)) }},
@@ -97,6 +145,21 @@ func concTemplates() []concTemplate {
 			}), &b)
 			return f("%q %d %v", out, p, err)
 		}},
+		{"HandleObjectValues(doc4,reused key scratch)", func() string {
+			var out []string
+			var key []byte
+			p, err := rjson.HandleObjectValues(inDoc4, rjson.ObjectValueHandlerFunc(func(k, d []byte) (int, error) {
+				var kerr error
+				key, _, kerr = rjson.UnescapeStringContent(k, key[:0])
+				if kerr != nil {
+					return 0, kerr
+				}
+				out = append(out, string(key))
+				return 0, nil
+			}), nil)
+			return f("%q %d %v", out, p, err)
+		}},
+		{"ReadObject(doc4)", func() string { v, p, err := rjson.ReadObject(inDoc4); return f("%v %d %v", v, p, err) }},
 		{"HandleObjectValues(doc,ValueReader)", func() string {
 			var vr rjson.ValueReader
 			p, err := rjson.HandleObjectValues(inDoc, &vr, nil)
@@ -209,6 +272,10 @@ var seqResults = map[int]string{}
 // runScheduled runs the chosen templates as goroutines under the cooperative scheduler with the
 // schedule given by c, and checks results and the access log.
 func runScheduled(ts []concTemplate, idx []int, c *eng.Chooser) schedResult {
+	// every execution starts from the package's initial state (first-seen values of all
+	// package-level variables), so first-use effects (lazy initialisation) are part of every run
+	verifhook.RestoreAll()
+	restoreInputs()
 	s := eng.NewSched(len(idx), c)
 	res := make([]string, len(idx))
 	pools := map[unsafe.Pointer]bool{}
@@ -239,6 +306,11 @@ func runScheduled(ts []concTemplate, idx []int, c *eng.Chooser) schedResult {
 		out.verdict = "panic: " + pan
 		return out
 	}
+	if m := modifiedInput(); m != "" {
+		out.verdict = "a shared read-only input was written to (data race with every concurrent reader): " + m
+		restoreInputs()
+		return out
+	}
 	for i, ti := range idx {
 		if res[i] != seqResults[ti] {
 			out.verdict = fmt.Sprintf("goroutine %d (%s) returned %s; run alone it returns %s", i, ts[ti].name, res[i], seqResults[ti])
@@ -259,9 +331,20 @@ func c18(r *eng.Run) {
 		os.Exit(0)
 	}
 	ts := concTemplates()
-	// sequential results (each template alone, twice: the second run sees whatever the first
-	// left behind in package-level state)
+	verifhook.Snapshot = true
+	// a first pass only to take the snapshots of every package-level variable at first use
+	verifhook.Sched = func(int, int, unsafe.Pointer) {}
+	for _, t := range ts {
+		t.run()
+	}
+	verifhook.Sched = nil
+	restoreInputs()
+	r.Set("package_variables_snapshotted", verifhook.Snapshots())
+	// sequential results (each template alone from the initial package state, and again without
+	// reset: the second run sees whatever the first left behind in package-level state)
 	for i, t := range ts {
+		verifhook.RestoreAll()
+		restoreInputs()
 		a := t.run()
 		b := t.run()
 		seqResults[i] = a
@@ -403,6 +486,7 @@ func c18(r *eng.Run) {
 // ---- Phase C: free-running race pass (separate -race binary) ------------------------------------
 
 func c18RaceChild() {
+	tfmt = func(string, ...interface{}) string { return "" }
 	ts := concTemplates()
 	var wg sync.WaitGroup
 	rounds := 30
@@ -417,6 +501,19 @@ func c18RaceChild() {
 			}(g)
 		}
 		wg.Wait()
+	}
+	// isolated pairs: two goroutines, one template each, inputs restored before (the library's own
+	// use of sync.Pool / fmt creates happens-before edges that mask races in long runs; short
+	// isolated pairs keep the accesses unordered)
+	for i := range ts {
+		for j := i; j < len(ts); j++ {
+			restoreInputs()
+			var w2 sync.WaitGroup
+			w2.Add(2)
+			go func() { defer w2.Done(); ts[i].run() }()
+			go func() { defer w2.Done(); ts[j].run() }()
+			w2.Wait()
+		}
 	}
 	fmt.Println("RACE-CHILD-DONE")
 }
